@@ -1002,6 +1002,7 @@ func (eng *Engine) VerifyFunc(fn *ssa.Function, opts ExecOpts) (rep *FuncReport)
 			g := fx.evalClause(fr, env, rq, "requires")
 			st.pc = c.And(st.pc, g)
 		}
+		fx.followAliases = fc.FollowAliases
 		for _, sp := range fc.Splits {
 			fx.splits = append(fx.splits, fx.evalClause(fr, env, sp, "split"))
 		}
@@ -1032,6 +1033,28 @@ func (eng *Engine) VerifyFunc(fn *ssa.Function, opts ExecOpts) (rep *FuncReport)
 	if fc != nil {
 		if !fc.Assumed {
 			toProve = append(toProve, fc.Ensures...)
+			// a frame over a RANGE of a slice (modifies s[lo:hi]) is checked syntactically only as "writes into s";
+			// that the cells of s outside the range keep their values is proved as an extra postcondition
+			for _, m := range fc.Modifies {
+				x := m.Expr
+				if x.Op != "slice" || (x.Args[1] == nil && x.Args[2] == nil) {
+					continue
+				}
+				base := exprString(x.Args[0])
+				lo, hi := "0", "len("+base+")"
+				if x.Args[1] != nil {
+					lo = "(" + exprString(x.Args[1]) + ")"
+				}
+				if x.Args[2] != nil {
+					hi = "(" + exprString(x.Args[2]) + ")"
+				}
+				src := fmt.Sprintf("forall k__ int :: 0 <= k__ && k__ < len(%s) && !(old(%s) <= k__ && k__ < old(%s)) ==> %s[k__] == old(%s[k__])", base, lo, hi, base, base)
+				e, err := ParseCExpr(src)
+				if err != nil {
+					panic(oosError{"range frame: " + err.Error()})
+				}
+				toProve = append(toProve, Clause{Expr: e, Src: "range frame " + m.Src + ": " + src, Line: m.Line})
+			}
 		}
 		toProve = append(toProve, fc.Proves...)
 	}
